@@ -74,7 +74,7 @@ fn eid_num(e: &EventId) -> u64 {
 static PK_POOL: std::sync::OnceLock<Vec<PublicKey>> = std::sync::OnceLock::new();
 fn pk_pool() -> &'static Vec<PublicKey> {
     PK_POOL.get_or_init(|| {
-        (0..130u32)
+        (0..800u32)
             .map(|i| {
                 let mut sk = [0x11u8; 32];
                 sk[28..].copy_from_slice(&(i + 1).to_be_bytes());
@@ -103,11 +103,19 @@ const TAG_WORDS: [&str; 7] = ["", "alpha_1", "be%ta", "gam\\ma", "delta", "alpha
 fn mk_tags(i: u64) -> Tags {
     if i == 0 {
         Tags::new()
+    } else if i >= 1000 {
+        // boundary stream: one tag whose value has exactly i - 1000 bytes
+        Tags::from_list(vec![Tag::parse(["t".to_string(), "v".repeat((i - 1000) as usize)]).unwrap()])
     } else {
         Tags::from_list(vec![Tag::parse(["t", TAG_WORDS[i as usize % TAG_WORDS.len()]]).unwrap()])
     }
 }
 fn tags_num(t: &Tags) -> u64 {
+    if let Some(v) = t.iter().next().and_then(|x| x.content().map(|c| c.to_string())) {
+        if t.len() == 1 && v.len() >= 20 && v.bytes().all(|b| b == b'v') {
+            return 1000 + v.len() as u64;
+        }
+    }
     for i in 0..TAG_WORDS.len() as u64 {
         if *t == mk_tags(i) {
             return i;
@@ -126,12 +134,14 @@ fn content_tok(s: &str) -> u64 {
     s.strip_prefix('c').and_then(|r| r.split(':').next()).and_then(|n| n.parse().ok()).unwrap_or(999_999)
 }
 fn relay_url(r: u64) -> RelayUrl {
-    // r < 1000: a 24-byte url; r ≥ 1000: a url of exactly r bytes
+    // r < 1000: a short (24-byte) url; 1000 <= r < 10^6: a url of exactly r bytes; r >= 10^6: a url of exactly r / 10^6
+    // bytes (boundary stream: 512000001 = 512 bytes, host number 1).  Model: Store.relayLen
     let base = format!("wss://r{:04}.example.com", r % 10000);
+    let want = if r >= 1_000_000 { r / 1_000_000 } else if r >= 1000 { r } else { 0 };
     let mut s = base;
-    if r >= 1000 {
+    if want > 0 {
         s.push('/');
-        while (s.len() as u64) < r {
+        while (s.len() as u64) < want {
             s.push('p');
         }
     }
@@ -139,7 +149,13 @@ fn relay_url(r: u64) -> RelayUrl {
 }
 fn relay_num(u: &RelayUrl) -> u64 {
     let s = u.as_str();
-    s.strip_prefix("wss://r").and_then(|r| r.get(..4)).and_then(|n| n.parse().ok()).unwrap_or(999_999)
+    let id: u64 = s.strip_prefix("wss://r").and_then(|r| r.get(..4)).and_then(|n| n.parse().ok()).unwrap_or(999_999);
+    let len = s.len() as u64;
+    if s.contains(".com/p") {
+        if len >= 1000 && id == len % 10000 { len } else { len * 1_000_000 + id }
+    } else {
+        id
+    }
 }
 
 fn opt_u(s: &str) -> Option<u64> {
@@ -210,13 +226,53 @@ pub fn show_group(g: &Group) -> String {
     )
 }
 
+fn ev_override(a: &[&str]) -> Option<u64> {
+    a.iter().find_map(|t| t.strip_prefix("e=")).and_then(|n| n.parse().ok())
+}
+/// serialized sizes of the values of a saving op, measured with the calls the SQLite backend makes on them:
+/// (tags JSON, event JSON, admin-pubkeys JSON, relays JSON); 0 where the op has no such value
+pub fn measure(t: &[&str]) -> Option<(usize, usize, usize, usize)> {
+    use nostr::JsonUtil;
+    let a = &t[1..];
+    match t[0] {
+        "save_group" => {
+            let g = mk_group(a);
+            Some((0, 0, serde_json::to_string(&g.admin_pubkeys).ok()?.len(), 0))
+        }
+        "save_message" => {
+            let m = mk_msg(a);
+            Some((serde_json::to_string(&m.tags).ok()?.len(), m.event.as_json().len(), 0, 0))
+        }
+        "save_welcome" => {
+            let w = mk_welcome(a);
+            Some((0, w.event.as_json().len(), serde_json::to_string(&w.group_admin_pubkeys).ok()?.len(), serde_json::to_string(&w.group_relays).ok()?.len()))
+        }
+        _ => None,
+    }
+}
+fn show_sizes(z: (usize, usize, usize, usize)) -> String {
+    format!("{},{},{},{}", z.0, z.1, z.2, z.3)
+}
+/// an op line may carry its measured sizes as `z=<tags>,<event>,<admins>,<relays>` (what the Lean driver reads): the
+/// annotation must be what this process measures on the value it is about to save
+fn annotation_ok(t: &[&str]) -> bool {
+    match t.iter().find_map(|x| x.strip_prefix("z=")) {
+        None => true,
+        Some(z) => measure(t).map(|m| show_sizes(m) == z).unwrap_or(false),
+    }
+}
 fn mk_msg(a: &[&str]) -> Message {
     let pk = mk_pk(u(a[2]));
     let kind = Kind::from(u(a[3]) as u16);
     let created = Timestamp::from(u(a[4]));
     let tags = mk_tags(u(a[8]));
     let content = mk_content(u(a[6]), u(a[7]));
-    let mut ev = UnsignedEvent::new(pk, created, kind, tags.clone(), content.clone());
+    // `e=<n>` (boundary stream): the embedded event carries its own content of n bytes and no tags, so that the content /
+    // tags limits can be reached without the event-JSON limit (which is smaller) firing first
+    let mut ev = match ev_override(a) {
+        Some(n) => UnsignedEvent::new(pk, created, kind, Tags::new(), format!("E!{}", "e".repeat((n as usize).saturating_sub(2)))),
+        None => UnsignedEvent::new(pk, created, kind, tags.clone(), content.clone()),
+    };
     ev.id = Some(mk_eid(u(a[0])));
     Message {
         id: mk_eid(u(a[0])),
@@ -247,8 +303,7 @@ pub fn show_msg(m: &Message) -> String {
     };
     // the embedded event must still be the one that was saved
     let ev_ok = m.event.pubkey == m.pubkey
-        && m.event.content == m.content
-        && m.event.tags == m.tags
+        && (m.event.content.starts_with("E!") || (m.event.content == m.content && m.event.tags == m.tags))
         && m.event.created_at == m.created_at
         && m.event.kind == m.kind
         && m.event.id == Some(m.id);
@@ -314,10 +369,15 @@ fn mk_welcome(a: &[&str]) -> Welcome {
     let rlen = u(a[7]);
     let mut relays = BTreeSet::new();
     for i in 0..nrel {
-        relays.insert(if i == 0 && rlen >= 1000 { relay_url(rlen) } else { relay_url(i) });
+        // the first relay has exactly `rlen` bytes unless rlen is the default 24 (Model: Welcome.relayLen)
+        relays.insert(if i == 0 && rlen >= 1000 { relay_url(rlen) } else if i == 0 && rlen >= 30 { relay_url(rlen * 1_000_000) } else { relay_url(i) });
     }
     let welcomer = mk_pk(u(a[8]));
-    let mut ev = UnsignedEvent::new(welcomer, Timestamp::from(1_700_000_000u64), Kind::MlsWelcome, Tags::new(), "welcome".to_string());
+    let evc = match ev_override(a) {
+        Some(n) => format!("E!{}", "e".repeat((n as usize).saturating_sub(2))),
+        None => "welcome".to_string(),
+    };
+    let mut ev = UnsignedEvent::new(welcomer, Timestamp::from(1_700_000_000u64), Kind::MlsWelcome, Tags::new(), evc);
     ev.id = Some(mk_eid(u(a[0])));
     Welcome {
         id: mk_eid(u(a[0])),
@@ -350,7 +410,7 @@ pub fn show_welcome(w: &Welcome) -> String {
         WelcomeState::Ignored => 3,
     };
     let maxlen = w.group_relays.iter().map(|r| r.as_str().len() as u64).max().unwrap_or(0);
-    let rlen = if maxlen >= 1000 { maxlen } else { 24 };
+    let rlen = if maxlen >= 30 { maxlen } else { 24 };
     format!(
         "w({},{},{},{},{},{},{},{},{},{},{},{})",
         eid_num(&w.id),
@@ -590,6 +650,12 @@ pub fn dump<S: MdkStorageProvider>(s: &S) -> String {
 
 pub fn exec<S: MdkStorageProvider>(s: &S, t: &[&str]) -> String {
     let a = &t[1..];
+    if t[0] == "measure" {
+        return measure(a).map(|z| format!("z={}", show_sizes(z))).unwrap_or_else(|| "z=0,0,0,0".into());
+    }
+    if !annotation_ok(t) {
+        return "bad-annotation".into();
+    }
     match t[0] {
         "save_group" => ok_err(s.save_group(mk_group(a))),
         "find_group" => match s.find_group_by_mls_group_id(&mk_gid(u(a[0]))) {
